@@ -330,10 +330,11 @@ PROPERTIES.update({
         "engine": "loomcheck (loom 0.7.2)",
         "technique": "stateless model checking of thread interleavings (loom, C11 memory model) on the real dispatch code",
         "rule": "an execution is one complete interleaving of a multi-threaded program over the real unsafe_ifunc! cells; loom enumerates all of them (2 threads: unbounded preemptions; 3 threads: preemption bound 3) with partial-order reduction",
-        "explanation": "The real unsafe_ifunc! macro is built with loom's AtomicPtr and lazy_static (hook H4), so every execution starts in the first-call-in-the-process state and loom decides what each Relaxed load may return. Programs: 2 threads x 2 calls and 3 threads x 1-2 calls drawn from all seven dispatched routines so that first calls collide on the same cell and on different cells, with per-thread haystacks that take the scalar, SSE2 and AVX2 routes. Every return value must equal the sequential reference. The evidence reports how many executions had two threads racing through the same cell's detect (a run in which none did is a machinery error). Sharing one Finder/FinderRev and moving cloned iterators across threads is explored too, but there is no synchronisation inside a search, so loom only has thread start/finish orders to vary there; that part is complemented by a compile-time Send+Sync probe of all 31 public searcher/iterator types.",
+        "explanation": "The real unsafe_ifunc! macro is built with loom's AtomicPtr and lazy_static (hook H4), so every execution starts in the first-call-in-the-process state and loom decides what each Relaxed load may return. Programs: 2 threads x 2 calls and 3 threads x 1-2 calls drawn from all seven dispatched routines so that first calls collide on the same cell and on different cells, with per-thread haystacks that take the scalar, SSE2 and AVX2 routes. Every return value must equal the sequential reference. The evidence reports how many executions had two threads racing through the same cell's detect (a run in which none did is a machinery error). Sharing one Finder/FinderRev and moving cloned iterators across threads is explored too, but there is no synchronisation inside a search, so loom only has thread start/finish orders to vary there; that part is complemented by a compile-time Send+Sync probe of all 31 public searcher/iterator types. Second build: the same programs run against a scratch copy of the crate in which EVERY core/std::sync::atomic, spin-loop hint and std::sync primitive is mechanically rewritten to its loom counterpart (bin/archcopy.py, variant kloom), so synchronisation that a change introduces anywhere - e.g. a lazily initialised field inside a shared Finder - is explored as well: searchers are built inside the model, threads perform their first searches (short Rabin-Karp-routed haystacks and long ones) on the shared object.",
         "assumptions": ["loom's model of Relaxed atomics (C11) and its partial-order reduction are sound", "an engine crash (e.g. a call through a null/garbage pointer) is reported as a violation", "data races on non-atomic shared state introduced into a searcher would need a race detector (not part of the deciding step)"],
         "jobs": [
             {"name": "loomcheck", "build": LOOM_BUILD, "args": ["--tier", "{tier}"], "classes": None},
+            {"name": "loomcheck[loom-visible copy]", "build": {"bin": "loomcheck", "variant": "kloom", "profile": "release"}, "args": ["--tier", "{tier}"], "classes": None},
             {"name": "sendsync-probe", "handler": sendsync_handler, "classes": None},
         ],
     },
